@@ -271,3 +271,58 @@ pub fn fault_kind(n: usize) -> std::io::ErrorKind {
     use std::io::ErrorKind::*;
     [BrokenPipe, ConnectionReset, ConnectionAborted, TimedOut, Other, NotConnected, PermissionDenied, HostUnreachable][n % 8]
 }
+
+/// a stream that delivers the same frame `count` times (in pieces of at most 64 KiB) and then ends, and that swallows
+/// whatever is written to it, keeping only the count and a running FNV-1a hash: gigabytes can go through one connection
+pub struct Repeating {
+    pub frame: Arc<Vec<u8>>,
+    pub left: u64,
+    pub pos: usize,
+    pub consumed: u64,
+    pub written: u64,
+    pub wfnv: u64,
+}
+
+impl Repeating {
+    pub fn new(frame: Vec<u8>, count: u64) -> Repeating {
+        Repeating { frame: Arc::new(frame), left: count, pos: 0, consumed: 0, written: 0, wfnv: 14695981039346656037 }
+    }
+}
+
+impl AsyncRead for Repeating {
+    fn poll_read(mut self: Pin<&mut Self>, _cx: &mut Context<'_>, buf: &mut ReadBuf<'_>) -> Poll<std::io::Result<()>> {
+        if self.left == 0 {
+            return Poll::Ready(Ok(()));
+        }
+        let n = (self.frame.len() - self.pos).min(buf.remaining()).min(65536);
+        let (a, b) = (self.pos, self.pos + n);
+        let fr = self.frame.clone();
+        buf.put_slice(&fr[a..b]);
+        self.pos += n;
+        self.consumed += n as u64;
+        if self.pos == self.frame.len() {
+            self.pos = 0;
+            self.left -= 1;
+        }
+        Poll::Ready(Ok(()))
+    }
+}
+
+impl AsyncWrite for Repeating {
+    fn poll_write(mut self: Pin<&mut Self>, _cx: &mut Context<'_>, data: &[u8]) -> Poll<std::io::Result<usize>> {
+        self.written += data.len() as u64;
+        // (hashing every octet of gigabytes costs too much: the first and the last 64 octets of every write are hashed)
+        let mut h = self.wfnv;
+        for x in data.iter().take(64).chain(data.iter().rev().take(64)) {
+            h = (h ^ (*x as u64)).wrapping_mul(1099511628211);
+        }
+        self.wfnv = h;
+        Poll::Ready(Ok(data.len()))
+    }
+    fn poll_flush(self: Pin<&mut Self>, _cx: &mut Context<'_>) -> Poll<std::io::Result<()>> {
+        Poll::Ready(Ok(()))
+    }
+    fn poll_shutdown(self: Pin<&mut Self>, _cx: &mut Context<'_>) -> Poll<std::io::Result<()>> {
+        Poll::Ready(Ok(()))
+    }
+}
